@@ -93,8 +93,9 @@ def wordEnd (rest : List Char) : Bool :=
   | [] => true
   | c :: _ => !isWordChar c
 
-/-- `reGoBuildGen = \s*//\s*(go:(generate\b|build convergen\b)|\+build convergen)` (unanchored search):
-is there a position with `//`, optional blanks, then one of the three directives -/
+/-- `reGoBuildGen = ^\s*//\s*(go:(generate\b|build convergen\b)|\+build convergen)` (anchored at the
+start of the comment text since the repair: a comment that merely mentions a directive is kept):
+optional blanks, `//`, optional blanks, then one of the three directives -/
 def matchGoBuildGenAt (cs : List Char) : Bool :=
   match cs with
   | '/' :: '/' :: rest =>
@@ -105,10 +106,7 @@ def matchGoBuildGenAt (cs : List Char) : Bool :=
   | _ => false
 
 def matchGoBuildGen (text : String) : Bool :=
-  let rec go : List Char → Bool
-    | [] => false
-    | c :: cs => matchGoBuildGenAt (c :: cs) || go cs
-  go text.toList
+  matchGoBuildGenAt (dropWhileL isReSpace text.toList)
 
 /-- `regexp.QuoteMeta` -/
 def quoteMeta (s : String) : String :=
